@@ -7,6 +7,6 @@ CONSTANTS
   Regs = 2
   BPrefix = 0
   DelKeys = {}
-  IntVals = {0, 5, 7}
+  IntVals = {5, 6}
 INVARIANTS TypeOK MinimaInOrder CopyIsSnapshot Export
 CHECK_DEADLOCK FALSE
